@@ -50,9 +50,9 @@ theorem frame_of (C : BCrypto) (pv : Bytes) (t : Term) (hs : Stored t = true) (h
   | pair a b =>
     cases b with
     | hash x =>
-      simp only [Stored, Bool.and_eq_true] at hs
-      simp only [pubOk, Bool.and_eq_true] at hp
-      simpa [bytesOf, pairBytes] using Frame.params (C := C) (pv := pv) (bytesOf C pv x) (prim_of C pv a hs.1 hp.1)
+      cases a with
+      | rnd n => simpa [bytesOf, pairBytes] using Frame.params (C := C) (pv := pv) (bytesOf C pv x) (PrimB.salt (C := C) (pv := pv) n)
+      | _ => simp [Stored] at hs
     | enc k' t' =>
       cases a with
       | enc k t => simpa [bytesOf, pairBytes] using Frame.row (C := C) (pv := pv) _ _ _ _
